@@ -776,7 +776,8 @@ type refreshDebouncer struct {
 	interval     time.Duration
 	timer        *time.Timer
 	refreshNowCh chan struct{}
-	quit         chan struct{}
+	quit         chan struct{} // closed by stop
+	done         chan struct{} // closed by the flusher when it returns
 	refreshFn    func() error
 }
 
@@ -786,6 +787,7 @@ func newRefreshDebouncer(interval time.Duration, refreshFn func() error) *refres
 		broadcaster:  nil,
 		refreshNowCh: make(chan struct{}, 1),
 		quit:         make(chan struct{}),
+		done:         make(chan struct{}),
 		interval:     interval,
 		timer:        time.NewTimer(interval),
 		refreshFn:    refreshFn,
@@ -811,6 +813,12 @@ func (d *refreshDebouncer) refreshNow() <-chan error {
 	d.mu.Lock()
 	defer d.mu.Unlock()
 	verifEvent("d_refresh_now", d, "", 0, nil)
+	if d.stopped {
+		// the flusher has exited or is about to: nobody would answer this request
+		ch := make(chan error)
+		close(ch)
+		return ch
+	}
 	if d.broadcaster == nil {
 		d.broadcaster = newErrorBroadcaster()
 		select {
@@ -823,6 +831,7 @@ func (d *refreshDebouncer) refreshNow() <-chan error {
 }
 
 func (d *refreshDebouncer) flusher() {
+	defer close(d.done)
 	for {
 		select {
 		case <-d.refreshNowCh:
@@ -876,8 +885,11 @@ func (d *refreshDebouncer) stop() {
 	verifEvent("d_stop_marked", d, "", 0, nil)
 	d.mu.Unlock()
 	verifEvent("d_stop_send", d, "", 0, nil)
-	d.quit <- struct{}{} // sync with flusher
+	// Wake the flusher wherever it is and wait until it has returned. The flusher may have
+	// left its select for another reason already (it then sees stopped and returns without
+	// ever looking at quit), so this must not be a send it has to receive.
 	close(d.quit)
+	<-d.done
 	verifEvent("d_stop_done", d, "", 0, nil)
 }
 
